@@ -80,6 +80,8 @@ def synthetic(rng):
     })
     x, y = np.arange(nx) * dx, np.arange(ny) * dy
     lorder = str(rng.choice(["ascending", "ascending", "descending", "shuffled"]))
+    keyorder = bool(rng.random() < 0.3)
+    sentinels = bool(rng.random() < 0.3)
     lperm = rng.permutation(nl)
     results = {}
     for ti, tw in enumerate(cfg.towers):
@@ -122,7 +124,17 @@ def synthetic(rng):
                 return np.where(rng.random(shape) < 0.2, -0.0, rng.normal(size=shape))
 
             st = cfg.met.get_step(t)
-            lst.append({"grid": (X, Y, Z), "conc": field(1), "flx": field(2), "tower_name": tw.name, "tower_xy": (tw.x, tw.y),
+            if keyorder:   # a result assembled by hand / re-read from elsewhere: the same entries in another key order
+                ks = list(st)
+                st = {k_: st[k_] for k_ in [ks[i_] for i_ in rng.permutation(len(ks))]}
+            cf, ff = field(1), field(2)
+            if sentinels and cf.dtype == np.float64:
+                # values that file formats like to reserve as "missing": they are data here and must come back as they went in
+                for arr_ in (cf, ff):
+                    flat_ = arr_.reshape(-1)
+                    pos_ = rng.choice(flat_.size, size=min(4, flat_.size), replace=False)
+                    flat_[pos_] = rng.choice([-9999.0, -999.0, 9.969209968386869e36, 1e20, -32767.0, 99999.0], size=len(pos_))
+            lst.append({"grid": (X, Y, Z), "conc": cf, "flx": ff, "tower_name": tw.name, "tower_xy": (tw.x, tw.y),
                         "timestamp": st["timestamp"], "params": st})
         results[tw.name] = lst
     desc = dict(towers=nt, steps=ns, dims=3 if three else 2, levels=nl, grid=(ny, nx), values=vclass, timestamps=tskind, forcing=forcing,
